@@ -11,3 +11,4 @@ CONSTANTS
   MaxDepth = 7
   Emit = TRUE
   CheckDump = FALSE
+  ExcuseKnown = TRUE
